@@ -3,6 +3,7 @@ package props
 import (
 	"fmt"
 	"math"
+	"strconv"
 	"strings"
 
 	"github.com/llir/llvm/ir"
@@ -664,6 +665,59 @@ func c03ModuleLevel(r *fw.Rec) {
 	c03BlockAddresses(r)
 	c03AddrSpaces(r)
 	c03NamedAliases(r)
+	c03FloatFromDouble(r)
+}
+
+// c03FloatFromDouble builds float constants from Go float64 values that are
+// not exactly a single (constant.NewFloat(types.Float, 0.1), the everyday way to
+// write 0.1f): the printed literal must be valid for LLVM and denote the single
+// nearest to the value (what LLVM's ConstantFP::get and clang produce), infinity
+// beyond the range.
+func c03FloatFromDouble(r *fw.Rec) {
+	vals := []float64{0.1, -0.1, 1.0 / 3, 2.0 / 3, 0.7, 1e-3, 3.14159265358979, 16777217, 1e10, 1e38, 3.5e38, 1e300, -1e300, 1e-40, 1e-46, 1.0000000596046448}
+	m := ir.NewModule()
+	for i, v := range vals {
+		m.NewGlobalDef(fmt.Sprintf("f%d", i), constant.NewFloat(types.Float, v))
+	}
+	text, pp := printGuard(m)
+	if pp != "" {
+		r.Violate(fw.Violation{Key: "print-panics/float-from-double", What: firstLine(pp)})
+		return
+	}
+	out, msg, ok, err := llvmref.Reading(text)
+	if err != nil {
+		r.Inconclusive("llvm tool failure")
+		return
+	}
+	if !ok {
+		r.Violate(fw.Violation{Key: "llvm-rejects/float-from-double", Input: text, What: "LLVM rejects a float constant built with constant.NewFloat(types.Float, x): " + firstLine(lastDiag(msg))})
+		return
+	}
+	got := map[string]string{}
+	for _, l := range strings.Split(out, "\n") {
+		f := strings.Fields(l)
+		if len(f) == 5 && strings.HasPrefix(f[0], "@f") {
+			got[f[0][1:]] = f[4]
+		}
+	}
+	for i, v := range vals {
+		r.Eval(1)
+		want := float64(float32(v))
+		lit := got[fmt.Sprintf("f%d", i)]
+		var have float64
+		if strings.HasPrefix(lit, "0x") {
+			bits, _ := strconv.ParseUint(lit[2:], 16, 64)
+			have = math.Float64frombits(bits)
+		} else {
+			have, _ = strconv.ParseFloat(lit, 64)
+		}
+		if have != want {
+			r.Violate(fw.Violation{Key: "float-from-double/not-nearest", Input: text, What: fmt.Sprintf("constant.NewFloat(types.Float, %v) prints a literal LLVM reads as %v; the nearest single is %v", v, have, want)})
+			return
+		}
+	}
+	r.Nontrivial(text)
+	r.TallyN("constructors", "float-from-double", len(vals))
 }
 
 // c03NamedAliases builds with named non-struct types (`%T = type i32*`,
